@@ -23,13 +23,24 @@ def colored(rng, n, chi=None):
     return y / (np.std(y) + 1e-12)
 
 
-def gen_config(rng, small=False):
+def gen_config(rng, small=False, low=0.08):
+    """(fs, f_lo, f_hi).  A share ``low`` of the configurations are slow rhythms (band below / around 1 Hz at low sampling
+    rates), where lengths given in cycles and lengths given in seconds differ the other way round."""
+    if rng.random() < low:
+        fs = float(rng.choice([32., 64., 50., 25.]))
+        f_lo = float(rng.choice([0.25, 0.5]))
+        return fs, f_lo, 3 * f_lo
     fs = float(rng.choice(FS_CHOICES[:5] if small else FS_CHOICES))
     f_lo = float(rng.choice([2, 4, 6, 8, 13, 20]))
     f_hi = f_lo + float(rng.choice([2, 4, 6, 8, 10]))
     if f_hi >= fs / 2:
         f_hi = fs / 2 - 1
     return fs, f_lo, f_hi
+
+
+def duration(rng, f_lo, base=(1.0, 6.0)):
+    """Signal duration in seconds: ``base`` for ordinary bands, stretched for slow rhythms so that several cycles fit."""
+    return float(rng.uniform(*base)) * max(1.0, 4.0 / f_lo)
 
 
 def gen_signal(rng, fs, f_lo, f_hi, n_sec, kind=None):
@@ -177,7 +188,7 @@ def gen_pipeline_case(rng, families=None, methods=('cycles', 'amp'), nsec=(1.0, 
     """A full compute_features case (materialised)."""
     fs, lo, hi = gen_config(rng, small=small)
     kind = None if families is None else str(rng.choice(families))
-    sig, kind = gen_signal(rng, fs, lo, hi, rng.uniform(*nsec), kind)
+    sig, kind = gen_signal(rng, fs, lo, hi, duration(rng, lo, nsec), kind)
     center = str(rng.choice(['peak', 'trough']))
     method = str(rng.choice(list(methods)))
     fek = gen_find_extrema_kwargs(rng, fs, lo)
